@@ -8,6 +8,8 @@ package query
 //verif:harness VerifC13FileLoad mode=bv tier=quick split=4
 //verif:setup VerifC13JoinSetup
 //verif:harness VerifC13Joins mode=bv tier=quick split=5
+//verif:setup VerifC13SubFilesSetup
+//verif:harness VerifC13SubqueryFiles mode=bv tier=quick split=4
 
 import (
 	"github.com/mithrandie/csvq/lib/parser"
@@ -36,10 +38,12 @@ var verifC13Src = []string{
 }
 var verifC13Queries []parser.SelectQuery
 var verifC13Decls []parser.Statement
+var verifC13Prelude parser.SelectQuery
 
 func VerifC13Setup() {
 	verifC13Decls = verifParse(`declare pick aggregate (list, @a, @b) as begin return @b; end;
 		declare inc function (@v) as begin var @w := @v + 1; return @w; end;`)
+	verifC13Prelude = verifParse("select count(distinct k), listagg(distinct k, ',') from t")[0].(parser.SelectQuery)
 	for _, s := range verifC13Src {
 		q := verifParse(s)[0].(parser.SelectQuery)
 		verifC13Queries = append(verifC13Queries, q)
@@ -74,6 +78,11 @@ func VerifC13ParallelQueries() {
 	verifTempTable(scope, "t", []string{"id", "k"}, rows)
 	verifTempTable(scope, "o", []string{"id", "k"}, rows[:1])
 	GetGoroutineManager().MinimumRequiredPerCore = 1
+	if verifChoice("prelude", 2) == 1 {
+		// an earlier statement of the session that uses the pooled key buffers (DISTINCT aggregates)
+		_, e := Select(verifCtx(), scope, verifC13Prelude)
+		verifAssert("the prelude runs", e == nil)
+	}
 	verifPreemptions(verifBound(0, 1))
 	verifRaces(true)
 	verifSchedules(true)
@@ -180,5 +189,54 @@ func VerifC13Joins() {
 	if err == nil {
 		verifObserve("rows", int64(view.RecordLen()))
 	}
+	verifReach("end")
+}
+
+var verifC13SubFiles []parser.SelectQuery
+
+func VerifC13SubFilesSetup() {
+	for _, q := range []string{
+		"select id, (select count(*) from `u.csv` as u where u.k = t.k) from t",
+		"select id, k from t where k in (select k from `u.csv`)",
+		"select t.id, u.k from t inner join `u.csv` as u on t.k = u.k",
+	} {
+		verifC13SubFiles = append(verifC13SubFiles, verifParse(q)[0].(parser.SelectQuery))
+	}
+}
+
+// Workers that evaluate a subquery on a table *file* for their rows: the first load (path lookup,
+// handler, loader goroutines, view cache) happens inside a worker while the others wait for or
+// reuse it - under the race monitor, every order in which the workers run (thorough: plus one
+// preemption).
+func VerifC13SubqueryFiles() {
+	verifFileWrite("u.csv", "k\n0\n1\n")
+	qi := verifChoice("query", len(verifC13SubFiles))
+	amp := verifAmplify()
+	tx := verifNewTx()
+	tx.Flags.Quiet = true
+	tx.Flags.CPU = 2
+	if amp > 1 {
+		tx.Flags.CPU = 4
+	}
+	proc := NewProcessor(tx)
+	scope := proc.ReferenceScope
+	k0 := int64(verifChoice("k", 2))
+	rows := make([][]value.Primary, 2*amp)
+	for i := range rows {
+		rows[i] = []value.Primary{value.NewInteger(int64(i)), value.NewInteger((k0 + int64(i)) % 2)}
+	}
+	verifTempTable(scope, "t", []string{"id", "k"}, rows)
+	GetGoroutineManager().MinimumRequiredPerCore = 1
+	verifPreemptions(verifBound(0, 1))
+	verifRaces(true)
+	verifSchedules(true)
+	view, err := Select(verifCtx(), scope, verifC13SubFiles[qi])
+	verifSchedules(false)
+	verifRaces(false)
+	verifAssert("the query runs", err == nil)
+	if err == nil {
+		verifObserve("rows", int64(view.RecordLen()))
+	}
+	_ = proc.ReleaseResourcesWithErrors()
 	verifReach("end")
 }
